@@ -1213,7 +1213,16 @@ class Terms(object):
             return (kind,) + parts
         if isinstance(e, ast.Dict):
             if any(k is None for k in e.keys):
-                return ("opaque", unparse(e))
+                # {**a, 'k': v, **b}: a dictionary made on the spot, written
+                # in the order listed (later entries win)
+                parts = []
+                for k, v in zip(e.keys, e.values):
+                    if k is None:
+                        parts.append(("all", T(v, node, env)))
+                    else:
+                        parts.append(("set", T(k, node, env),
+                                      T(v, node, env)))
+                return ("new", self._site(e), ("dictmerge", tuple(parts)))
             return ("new", self._site(e), (
                 "dict", tuple((T(k, node, env), T(v, node, env))
                               for k, v in zip(e.keys, e.values))))
@@ -2077,6 +2086,37 @@ def split_cond(t, pol):
     return [norm_cond(t, pol)]
 
 
+def split_cases(t, pol, limit=8):
+    """The ways condition ``t`` can have truth value ``pol``, as a list of
+    conjunctions of atomic facts (disjunctive normal form): ``not (a and
+    b)`` holds when a fails or when b fails - two cases; a conjunction that
+    holds is one case with all its parts.  None when there would be more
+    than ``limit`` cases."""
+    while t[0] == "not":
+        t, pol = t[1], not pol
+    if (t[0] == "and" and pol) or (t[0] == "or" and not pol):
+        cases = [[]]
+        for x in t[1:]:
+            sub = split_cases(x, pol, limit)
+            if sub is None:
+                return None
+            cases = [a + b for a in cases for b in sub]
+            if len(cases) > limit:
+                return None
+        return cases
+    if (t[0] == "or" and pol) or (t[0] == "and" and not pol):
+        cases = []
+        for x in t[1:]:
+            sub = split_cases(x, pol, limit)
+            if sub is None:
+                return None
+            cases += sub
+            if len(cases) > limit:
+                return None
+        return cases
+    return [[norm_cond(t, pol)]]
+
+
 def strip_new(t):
     return t[2] if isinstance(t, tuple) and t and t[0] == "new" else t
 
@@ -2488,6 +2528,19 @@ def layers(T, d):
             events.append((("all", src(it)), cnode))
         else:
             raise AnalysisError("layers: dictionary comprehension")
+    elif inner[0] == "dictmerge":
+        for part in inner[1]:
+            if part[0] == "all":
+                pm = part[1]
+                # a copy made on the spot inside the display ({**dict(m)})
+                pi = strip_new(pm)
+                if pm[0] == "new" and pi[0] == "call" and \
+                        pi[1] == ("global", "dict") and len(pi[2]) == 1 \
+                        and not pi[3]:
+                    pm = pi[2][0]
+                events.append((("all", src(pm)), cnode))
+            else:
+                events.append((part, cnode))
     else:
         raise AnalysisError("layers: constructor %s" % show(inner)[:60])
 
